@@ -336,6 +336,54 @@ Proof.
   - intros succs E. unfold exec in E. rewrite B in E. discriminate.
 Qed.
 
+(* OP_LOAD_FIELD_VAR on a group: whatever the members do (any number, gone, not a listener, failing
+   setter at the first, a middle or the last one), with or without a script error the instruction
+   ends at its normal successor - behind the operands with two values popped - and the height
+   never exceeds the height before the instruction *)
+Lemma group_loop_inv operands ms : forall g g' threw,
+  group_loop operands g ms = (g', threw) ->
+  gh g' = gh g /\ N.max (gmax g) (gh g) <= N.max (gmax g') (gh g') /\ gmax g' <= N.max (gmax g) (gh g + 1).
+Proof.
+  induction ms as [|m r IH]; intros g g' threw E; cbn [group_loop] in E.
+  - injection E as <- <-. repeat split; lia.
+  - destruct m.
+    + apply IH in E. cbn [gh gmax] in E. destruct E as [E1 [E2 E3]]. repeat split; lia.
+    + apply IH in E. exact E.
+    + injection E as <- <-. repeat split; lia.
+    + injection E as <- <-. cbn [gh gmax]. repeat split; lia.
+Qed.
+
+Theorem group_store_keeps_discipline pc h ms :
+  2 <= h ->
+  exists mx threw, load_field_group pc h ms = Some (pc + fieldlen, h - 2, mx, threw) /\ mx <= h.
+Proof.
+  intro L. unfold load_field_group. destruct (N.leb_spec 2 h) as [_|C]; [|lia].
+  destruct (group_loop (pc + 1) (mkG (pc + 1) (h - 1) (h - 1)) ms) as [g threw] eqn:E.
+  apply group_loop_inv in E. cbn [gh gmax] in E. destruct E as [E1 [_ E3]].
+  exists (gmax g), threw. split.
+  - replace (pc + 1 + sz_op_name_t + sz_op_evName_t) with (pc + fieldlen) by (unfold fieldlen; lia).
+    replace (gh g - 1) with (h - 2) by lia. reflexivity.
+  - lia.
+Qed.
+
+(* ... which is the successor [exec] gives the instruction *)
+Theorem group_store_is_the_normal_successor p pc s succs ms :
+  byte p pc = Some OP_LOAD_FIELD_VAR -> exec p pc s = Some succs ->
+  exists s' mx threw,
+    load_field_group pc (ht s) ms = Some (pc + fieldlen, ht s', mx, threw) /\
+    In (pc + fieldlen, s') succs /\ mk s' = mk s /\ mx <= ht s.
+Proof.
+  intros B E. unfold exec in E. rewrite B in E. cbn [opt_bind] in E.
+  change (shape_of OP_LOAD_FIELD_VAR) with (ShField 2 0) in E. cbn [exec_shape] in E.
+  bind_in E. bind_in E. bind_in E. bind_in E. bind_in E. injection E as <-.
+  unfold adj in X1. destruct (N.leb_spec 2 (ht s)) as [L|]; [|discriminate]. injection X1 as <-.
+  destruct (group_store_keeps_discipline pc (ht s) ms L) as [mx [threw [G M]]].
+  exists (mkA (ht s - 2 + 0) (mk s)), mx, threw. cbn [ht mk]. repeat split.
+  - rewrite G. replace (ht s - 2 + 0) with (ht s - 2) by lia. reflexivity.
+  - left. f_equal. unfold fieldlen. lia.
+  - exact M.
+Qed.
+
 (* on the current tree no row is defective *)
 Theorem err_defective_now : err_defective = [].
 Proof. vm_compute. reflexivity. Qed.
